@@ -67,6 +67,34 @@ func backSlice(v ssa.Value, followArgs bool, visit func(ssa.Value)) {
 			}
 		case *ssa.Extract:
 			walk(x.Tuple)
+		case *ssa.Alloc:
+			// aggregate built in place (varargs array, composite literal): follow element/field stores
+			if x.Referrers() != nil {
+				for _, ref := range *x.Referrers() {
+					switch a := ref.(type) {
+					case *ssa.Store:
+						if a.Addr == ssa.Value(x) {
+							walk(a.Val)
+						}
+					case *ssa.IndexAddr:
+						if a.Referrers() != nil {
+							for _, rr := range *a.Referrers() {
+								if st, ok := rr.(*ssa.Store); ok && st.Addr == ssa.Value(a) {
+									walk(st.Val)
+								}
+							}
+						}
+					case *ssa.FieldAddr:
+						if a.Referrers() != nil {
+							for _, rr := range *a.Referrers() {
+								if st, ok := rr.(*ssa.Store); ok && st.Addr == ssa.Value(a) {
+									walk(st.Val)
+								}
+							}
+						}
+					}
+				}
+			}
 		case *ssa.Field:
 			walk(x.X)
 		case *ssa.FieldAddr:
